@@ -163,6 +163,34 @@ int HTPsync(filerec_t *file_rec)
    written) only after its own header is on disk.  Harness h_HTPsync_order places ghost A on the first header byte of
    block g_bi+1 and ghost B on the first byte of the link field of block g_bi and checks g_firstA < g_firstB. */
 
+/* C02: a freshly created file starts with a complete first DD block right after the magic number */
+#ifndef H4V_NDDS_IN
+#define H4V_NDDS_IN 0
+#endif
+#define NDDS_NORM(n) ((n) == 0 ? DEF_NDDS : (n) < MIN_NDDS ? MIN_NDDS : (n))
+int HTPinit(filerec_t *file_rec, int16 ndds)
+    __CPROVER_requires(file_rec == g_frec && FREC_WF(file_rec) && file_rec->f_cur_off == MAGICLEN && ndds == H4V_NDDS_IN)
+    __CPROVER_requires(g_seq == 0 && g_add_session == 0 && g_idx >= 0 && g_idx < NDDS_NORM(ndds))
+    __CPROVER_assigns(file_rec->ddhead, file_rec->ddlast, file_rec->ddnull, file_rec->ddnull_idx, file_rec->f_end_off, file_rec->f_cur_off,
+                      file_rec->maxref, file_rec->tag_tree, g_seq, g_wr_n, g_wr_off, g_wr_len, g_seek_n, g_seqA, g_seqB, g_firstA, g_firstB,
+                      g_byteA, g_byteB, g_hp_min_wr, g_hp_failed)
+    __CPROVER_ensures(g_hp_failed ==> __CPROVER_return_value == FAIL)
+    __CPROVER_ensures(__CPROVER_return_value == SUCCEED ==>
+                      (file_rec->ddhead != NULL && file_rec->ddlast == file_rec->ddhead && file_rec->ddhead->ndds == NDDS_NORM(ndds) &&
+                       file_rec->ddhead->myoffset == MAGICLEN && file_rec->ddhead->nextoffset == 0 && file_rec->ddhead->next == NULL &&
+                       file_rec->ddhead->prev == NULL && file_rec->ddhead->dirty == FALSE && file_rec->maxref == 0 &&
+                       file_rec->f_end_off == MAGICLEN + NDDS_SZ + OFFSET_SZ + NDDS_NORM(ndds) * DD_SZ))
+    __CPROVER_ensures(__CPROVER_return_value == SUCCEED ==>
+                      (file_rec->ddhead->ddlist[g_idx].tag == DFTAG_NULL && file_rec->ddhead->ddlist[g_idx].ref == DFREF_NONE &&
+                       file_rec->ddhead->ddlist[g_idx].offset == INVALID_OFFSET && file_rec->ddhead->ddlist[g_idx].length == INVALID_LENGTH &&
+                       file_rec->ddhead->ddlist[g_idx].blk == file_rec->ddhead))
+    /* on disk: header (ndds, 0) at offset 4, then NIL descriptors up to the end of the file */
+    __CPROVER_ensures((__CPROVER_return_value == SUCCEED && g_offA >= MAGICLEN && g_offA < MAGICLEN + NDDS_SZ + OFFSET_SZ) ==>
+                      (g_seqA != 0 && g_byteA == HDR_BYTE(NDDS_NORM(ndds), 0, g_offA - MAGICLEN)))
+    __CPROVER_ensures((__CPROVER_return_value == SUCCEED && g_offA >= MAGICLEN + NDDS_SZ + OFFSET_SZ && g_offA < file_rec->f_end_off) ==>
+                      (g_seqA != 0 && g_byteA == NIL_BYTE((g_offA - MAGICLEN - NDDS_SZ - OFFSET_SZ) % DD_SZ)))
+    __CPROVER_ensures((g_offA < MAGICLEN || g_offA >= MAGICLEN + NDDS_SZ + OFFSET_SZ + NDDS_NORM(ndds) * DD_SZ) ==> g_seqA == 0);
+
 #ifdef H4V_NATIVE
 #include "h4v_native_wrap.h"
 #endif
@@ -346,4 +374,15 @@ h_HTPsync_order(void)
     H4V_CHECK(r == FAIL || (g_firstA != 0 && g_firstB != 0), "both headers were written");
     H4V_CHECK(r == FAIL || g_firstA < g_firstB, "C17: a DD block is linked on disk only after its own header is on disk");
     H4V_CANARY("HTPsync_order end");
+}
+
+void
+h_HTPinit(void)
+{
+    mk_frec(1);
+    H4V_HAVOC(int32, g_idx);
+    int r = HTPinit(g_frec, H4V_NDDS_IN);
+    H4V_COVER(r == SUCCEED && g_seqA != 0, "HTPinit ghost byte written");
+    H4V_COVER(r == FAIL && g_hp_failed, "HTPinit fault");
+    H4V_CANARY("HTPinit end");
 }
